@@ -13,7 +13,10 @@
 // or one GENERATED history per line (large structured histories, synthesized from a few parameters
 // exactly as lean/Driver/C11.lean `GSpec` and tools/props/c11.py `GSpec` do; output = digests):
 //
-//   G <variant> <relmask> <memmask> <cb> <maxbuf> <wr> <fixed> | <shape> <n> <k> <ro> <sg> <st> <kd> <miss> <dup> <extra> <ni> <q> <seed> | E
+//   G <variant> <relmask> <memmask> <cb> <maxbuf> <wr> <fixed> | <shape> <n> <k> <ro> <sg> <st> <kd> <miss> <dup> <extra> <ni> <q> <seed> [<ak> <am>] | E
+//
+// (<ak> <am>: the ID ALPHABET of the members: magnitude of member j = 10 + (j mod am)*st + (j div am)*2^ak, i.e. the
+// members j, j+am, j+2am, .. have ids that differ by multiples of 2^ak; absent or ak = 0: 10 + j*st)
 //
 // Output: same line format as the model driver.
 #include "common.hpp"
@@ -515,6 +518,8 @@ std::string run_test_manager(Ctx& ctx, bool cb, const std::vector<RelSpec>& rels
 
 struct GSpec {
     std::uint64_t shape, n, k, ro, sg, st, kd, miss, dup, extra, ni, q, seed;
+    std::uint64_t ak = 0;   // id alphabet: 0 = dense ids, else members j and j + am differ by 2^ak
+    std::uint64_t am = 1;
 
     char kind_of(std::uint64_t j) const {
         switch (kd) {
@@ -526,7 +531,7 @@ struct GSpec {
     }
 
     std::uint64_t mag(std::uint64_t j) const {
-        return 10 + j * st;
+        return ak == 0 ? 10 + j * st : 10 + (j % am) * st + (j / am) * (1ULL << ak);
     }
 
     bool neg(std::uint64_t j) const {
@@ -691,15 +696,17 @@ std::string run_line(const std::string& line) {
     std::vector<OpSpec> ops;
     std::uint64_t hd = 0;
     if (gen) {
-        if (secs.size() < 2 || secs[1].size() != 13) {
+        if (secs.size() < 2 || (secs[1].size() != 13 && secs[1].size() != 15)) {
             return "bad-op";
         }
-        std::uint64_t v[13];
-        for (int i = 0; i < 13; ++i) {
+        std::uint64_t v[15] = {0, 0, 0, 0, 0, 0, 0, 0, 0, 0, 0, 0, 0, 0, 1};
+        for (std::size_t i = 0; i < secs[1].size(); ++i) {
             v[i] = std::stoull(secs[1][i]);
         }
-        const GSpec g{v[0], v[1], v[2], v[3], v[4], v[5], v[6], v[7], v[8], v[9], v[10], v[11], v[12]};
-        if (g.n == 0 || g.k == 0) {
+        const GSpec g{v[0], v[1], v[2], v[3], v[4], v[5], v[6], v[7], v[8], v[9], v[10], v[11], v[12], v[13], v[14]};
+        // ids must stay inside int64_t: (n-1)/am layers of 2^ak plus the low part
+        if (g.n == 0 || g.k == 0 || g.am == 0 || g.ak > 62 ||
+            (g.ak > 0 && ((g.n - 1) / g.am >= (1ULL << (63 - g.ak)) || 10 + g.am * g.st + 1 >= (1ULL << g.ak)))) {
             return "bad-op";
         }
         const std::uint64_t nr = g.n_rels();
